@@ -398,3 +398,86 @@ func DialScript(conn *Conn, sc CliScript, rng *mrand.Rand) (lg *Log) {
 	lg.Finished = true
 	return
 }
+
+// ---- session resumption ------------------------------------------------------------
+
+// ServeResume plays a scripted server answering a resumption request: mode is
+// "authorized" (ReturnCode AUTHORIZED + Sid), "norc" (an ad without ReturnCode),
+// "notfound" (SID_NOT_FOUND), "denied" (ReturnCode DENIED) or "close".
+func ServeResume(conn *Conn, mode string) (lg *Log) {
+	lg = &Log{PeerAd: map[string]string{}}
+	ctx, cancel := ctxT()
+	defer cancel()
+	defer func() {
+		recover()
+		if !lg.Finished {
+			conn.Close()
+		}
+	}()
+	st := stream.NewStream(conn)
+	in := message.NewMessageFromStream(st)
+	if _, err := in.GetInt(ctx); err != nil {
+		return
+	}
+	cad, err := in.GetClassAdWithMaxSize(ctx, 1<<16)
+	if err != nil {
+		return
+	}
+	for _, k := range []string{"UseSession", "Sid", "CryptoMethods"} {
+		lg.PeerAd[k] = AdString(cad, k)
+	}
+	if mode == "close" {
+		return
+	}
+	ad := classad.New()
+	switch mode {
+	case "authorized":
+		_ = ad.Set("ReturnCode", "AUTHORIZED")
+	case "notfound":
+		_ = ad.Set("ReturnCode", "SID_NOT_FOUND")
+	case "denied":
+		_ = ad.Set("ReturnCode", "DENIED")
+	}
+	_ = ad.Set("Sid", lg.PeerAd["Sid"])
+	out := message.NewMessageForStream(st)
+	if out.PutClassAd(ctx, ad) != nil || out.FinishMessage(ctx) != nil {
+		return
+	}
+	lg.Finished = true
+	return
+}
+
+// DialResume plays a scripted client asking to resume session sid.
+func DialResume(conn *Conn, sid string, wantReply bool, command int) (lg *Log) {
+	lg = &Log{PeerAd: map[string]string{}}
+	ctx, cancel := ctxT()
+	defer cancel()
+	defer func() {
+		recover()
+		if !lg.Finished {
+			conn.Close()
+		}
+	}()
+	st := stream.NewStream(conn)
+	ad := classad.New()
+	_ = ad.Set("Command", command)
+	_ = ad.Set("UseSession", "YES")
+	_ = ad.Set("Sid", sid)
+	if wantReply {
+		_ = ad.Set("ResumeResponse", true)
+	}
+	out := message.NewMessageForStream(st)
+	if out.PutInt(ctx, commands.DC_AUTHENTICATE) != nil || out.PutClassAd(ctx, ad) != nil || out.FinishMessage(ctx) != nil {
+		return
+	}
+	if wantReply {
+		in := message.NewMessageFromStream(st)
+		rad, err := in.GetClassAdWithMaxSize(ctx, 1<<16)
+		if err != nil {
+			return
+		}
+		lg.PeerAd["ReturnCode"] = AdString(rad, "ReturnCode")
+	}
+	lg.Finished = true
+	return
+}
